@@ -90,6 +90,57 @@ async fn scripted(id: u64, script: Script, sh: Rc<Shared>) {
     sh.done.set(sh.done.get() + 1);
 }
 
+/// The future handed to `block_on` by an interlude: same script language as `scripted`, nothing logged
+/// (`block_on` is not a subject, only another user of the thread's scheduler channel).
+async fn interlude(script: Script) {
+    if let Some(ev) = script.start_emit {
+        emit_event(DriverEvent::User(ev));
+    }
+    for (op, ev) in script.ops.iter() {
+        match op {
+            Op::Sleep(d) => sleep_cycles(*d).await,
+            Op::Yield => YieldOnce { polled: false }.await,
+        }
+        if let Some(ev) = ev {
+            emit_event(DriverEvent::User(*ev));
+        }
+    }
+}
+
+/// An interlude entry is either a plain list of durations (`block_on` of a future sleeping them in turn) or a
+/// script object `{"se": ev?, "ops": [[d, ev?], ...]}` whose future also emits events.
+fn parse_interlude(v: &Value) -> Result<Option<Script>, String> {
+    if let Some(ds) = v.as_array() {
+        let ops = ds
+            .iter()
+            .map(|x| (Op::Sleep(x.as_u64().unwrap_or(0)), None))
+            .collect();
+        return Ok(Some(Script {
+            at: 0,
+            start_emit: None,
+            ops,
+        }));
+    }
+    if v.is_object() {
+        return parse_script(v).map(Some);
+    }
+    Ok(None)
+}
+
+fn emits(s: &Script) -> bool {
+    s.start_emit.is_some() || s.ops.iter().any(|(_, e)| e.is_some())
+}
+
+/// Every case starts from an empty event slot: the harness process is one long-lived thread, so whatever an
+/// earlier case left in the crate's thread-locals must not become an input of the next one (a case has to
+/// replay on its own).  Only public API: a scratch driver polls one empty task, which makes it collect (and
+/// the harness drop) a pending event if there is one.
+fn settle_thread() {
+    let mut d = AsyncDriver::new();
+    d.spawn(async {});
+    let _ = d.run_for(1);
+}
+
 fn parse_script(v: &Value) -> Result<Script, String> {
     let at = get_u64(v, "at", 0);
     let start_emit = v.get("se").and_then(|x| x.as_u64()).map(|x| x as u32);
@@ -256,8 +307,9 @@ fn run_sched(case: &Value) -> Value {
 
 /// Several drivers alive on ONE thread, stepped in a requested order.
 /// `{"drivers": [sched case, ...], "create": "upfront" | "lazy", "order": [entry, ...]}` where an entry is
-/// a driver index (one `run_for` call of that driver; a no-op once it is over) or a list of durations
-/// (`block_on` of a future that sleeps them in turn -- another user of the thread's scheduler channel).
+/// a driver index (one `run_for` call of that driver; a no-op once it is over), a list of durations
+/// (`block_on` of a future that sleeps them in turn -- another user of the thread's scheduler channel) or a
+/// script object (`block_on` of a future that also emits events, see `parse_interlude`).
 /// When `order` is exhausted the unfinished drivers are stepped round-robin until all are over.
 /// The answer holds one ordinary observation per driver.
 fn run_multi(case: &Value) -> Value {
@@ -279,38 +331,51 @@ fn run_multi(case: &Value) -> Value {
         }
     }
     let mut executed: Vec<Value> = Vec::new();
-    let step_one = |sessions: &mut Vec<Option<Session>>, i: usize| -> Result<bool, String> {
-        if i >= sessions.len() {
-            return Err(format!("driver index {i} out of range"));
-        }
-        if sessions[i].is_none() {
-            sessions[i] = Some(Session::new(&dcases[i])?);
-        }
-        Ok(sessions[i].as_mut().unwrap().step())
-    };
+    let mut extra_tail: u64 = 0;
+    let step_one =
+        |sessions: &mut Vec<Option<Session>>, i: usize, extra_tail: u64| -> Result<bool, String> {
+            if i >= sessions.len() {
+                return Err(format!("driver index {i} out of range"));
+            }
+            if sessions[i].is_none() {
+                let mut s = Session::new(&dcases[i])?;
+                s.tail_max += extra_tail;
+                sessions[i] = Some(s);
+            }
+            Ok(sessions[i].as_mut().unwrap().step())
+        };
     if let Some(order) = case.get("order").and_then(|x| x.as_array()) {
         for e in order {
             if let Some(i) = e.as_u64() {
-                match step_one(&mut sessions, i as usize) {
+                match step_one(&mut sessions, i as usize, extra_tail) {
                     Ok(true) => executed.push(json!(i)),
                     Ok(false) => {}
                     Err(e) => return err(e),
                 }
-            } else if let Some(ds) = e.as_array() {
-                let ds: Vec<u64> = ds.iter().map(|x| x.as_u64().unwrap_or(0)).collect();
-                sc62015_core::async_driver::block_on(async move {
-                    for d in ds {
-                        sleep_cycles(d).await;
+            } else {
+                match parse_interlude(e) {
+                    Ok(Some(script)) => {
+                        if emits(&script) {
+                            // a phantom event (if the driver under test picks one up) costs one run_for
+                            // call; keep enough tail calls for the scripts to finish regardless
+                            for s in sessions.iter_mut().flatten() {
+                                s.tail_max += 1;
+                            }
+                            extra_tail += 1;
+                        }
+                        sc62015_core::async_driver::block_on(interlude(script));
+                        executed.push(json!("block_on"));
                     }
-                });
-                executed.push(json!("block_on"));
+                    Ok(None) => {}
+                    Err(e) => return err(e),
+                }
             }
         }
     }
     loop {
         let mut any = false;
         for i in 0..sessions.len() {
-            match step_one(&mut sessions, i) {
+            match step_one(&mut sessions, i, extra_tail) {
                 Ok(true) => {
                     any = true;
                     if executed.len() < 4096 {
@@ -509,9 +574,22 @@ fn run_cpu(case: &Value) -> Value {
             r.with_slice_cycles(slice)
         }
     };
+    // optional: before call i, `block_on` of a scripted future on this thread (null = nothing)
+    let interludes: Vec<Value> = case
+        .get("interludes")
+        .and_then(|x| x.as_array())
+        .cloned()
+        .unwrap_or_default();
     let mut runner = mk(&rc);
     let mut async_out = Vec::new();
-    for n in calls.iter() {
+    for (k, n) in calls.iter().enumerate() {
+        if let Some(v) = interludes.get(k) {
+            match parse_interlude(v) {
+                Ok(Some(script)) => sc62015_core::async_driver::block_on(interlude(script)),
+                Ok(None) => {}
+                Err(e) => return err(e),
+            }
+        }
         if fresh_runner {
             runner = mk(&rc);
         }
@@ -561,7 +639,10 @@ pub fn handle(verb: &str, req: &Value, _st: &mut State) -> Value {
             };
             let mut out = Vec::with_capacity(cases.len());
             for c in cases {
-                let r = std::panic::catch_unwind(std::panic::AssertUnwindSafe(|| f(c)));
+                let r = std::panic::catch_unwind(std::panic::AssertUnwindSafe(|| {
+                    settle_thread();
+                    f(c)
+                }));
                 out.push(match r {
                     Ok(v) => v,
                     Err(e) => {
